@@ -181,7 +181,9 @@ bool_t H4_NCcoordck(NC *handle, NC_var *vp, const long *coords)
     __CPROVER_requires(coords[g_d] >= -2147483647L - 1 && coords[g_d] <= 2147483647L)
     __CPROVER_requires(coords[0] >= -2147483647L - 1 && coords[0] < 2147483647L)
     /* the data element of a variable is shorter than 2 GB (HDF4 format limit) */
+#ifndef NOMUL
     __CPROVER_requires((long)vp->numrecs * (long)vp->len <= 2147483647L)
+#endif
     __CPROVER_requires(g_nr0 == vp->numrecs && g_hw_n == 0 && g_hw_ok == 0 && g_seek_n == 0 && g_iofail == 0 &&
                        g_reclen == (int32)vp->len && g_aid != FAIL)
     __CPROVER_assigns(vp->numrecs, handle->numrecs, handle->flags, vp->aid, vp->data_ref, vp->set_length, g_hw_n,
@@ -304,6 +306,9 @@ mk_env(void)
     g_vp         = vp;
     g_nr0        = v_numrecs;
     g_reclen     = (int32)v_len;
+#ifdef FIXSZ
+    H4V_ASSUME(v_HDFsize == FIXSZ && v_szof == FIXSZ);
+#endif
     /* a _FillValue attribute the NC_findattr stub may hand out */
     g_attr        = malloc(sizeof(NC_attr));
     g_attrp       = malloc(sizeof(NC_attr *));
@@ -325,7 +330,6 @@ h_NCcoordck(void)
     mk_env();
     NC     *h  = e_h;
     NC_var *vp = g_vp;
-    H4V_ND(int, sd_write_api);
     cdf_routine_name = (h->xdrs->x_op == XDR_ENCODE) ? "SDwritedata" : "SDreaddata";
     /* the existential side of the specification, computed over all dimensions */
     int rec = (vp->shape[0] == 0);
